@@ -211,8 +211,8 @@ def _ragged(case, d):
     for lang in set(codes) - set(out['languages']):
         if any(c is not None for c in codes[lang].values()):
             fails.append(dict(lang=lang, mode='rel', kind='offered-but-not-listed', detail=''))
-    del ra
-    if snapshot(path) != before:
+    changed = snapshot(path) != before
+    if changed:
         fails.append(dict(lang='*', mode='*', kind='changed-files', detail='array directory changed by running the code'))
     try:
         rb = darr.RaggedArray(path)
@@ -220,6 +220,22 @@ def _ragged(case, d):
             fails.append(dict(lang='*', mode='*', kind='changed-files', detail='length changed'))
     except Exception as e:
         fails.append(dict(lang='*', mode='*', kind='changed-files', detail=f'no longer opens: {e}'[:200]))
+    # the SAME object after its contents changed but not its number of subarrays (last one replaced by a
+    # longer one): the code it gives now is the code of the array as it is now
+    if len(subs) >= 1 and not changed and case['seed'] % 2 == 0:
+        try:
+            darr.truncate_raggedarray(ra, len(subs) - 1)
+            ra.append(np.concatenate([subs[-1], subs[-1], np.ones((2,) + atom, dtype=dt)]))
+            fresh = darr.RaggedArray(path)
+            for lang in out['languages']:
+                for kw in ({}, dict(abspath=True)):
+                    calls += 1
+                    if ra.readcode(lang, **kw) != fresh.readcode(lang, **kw):
+                        fails.append(dict(lang=lang, mode='abs' if kw else 'rel', kind='stale-code-after-change-through-the-same-handle',
+                                          detail='differs from the code a fresh handle gives', code=ra.readcode(lang, **kw)))
+        except Exception as e:
+            fails.append(dict(lang='*', mode='*', kind='run-error', detail=f'after replacing the last subarray: {type(e).__name__}: {e}'[:200]))
+    del ra
     out['oracle_calls'] = calls
     out['oracle_fails'] = fails
     return out
